@@ -1382,3 +1382,21 @@ mod tests {
         block.encode_to_vec()
     }
 }
+
+#[cfg(eigerco_lumina_verif)]
+impl Daser {
+    /// Verification hook: same as the test-only `mocked`, returning the raw command receiver.
+    pub(crate) fn verif_mocked() -> (Self, mpsc::Receiver<DaserCmd>) {
+        let (cmd_tx, cmd_rx) = mpsc::channel(16);
+        let cancellation_token = CancellationToken::new();
+        let join_handle = spawn(async {});
+
+        let daser = Daser {
+            cmd_tx,
+            cancellation_token,
+            join_handle,
+        };
+
+        (daser, cmd_rx)
+    }
+}
